@@ -544,6 +544,14 @@ func (s *sessRun) request(rng *mrand.Rand, q int) {
 	now := time.Now().Unix()
 	scheme := "http"
 	r := httptest.NewRequest("GET", scheme+"://app.test/", nil)
+	if rng.Intn(3) == 0 {
+		// what a reverse proxy in front adds (path prefix it stripped, original URI, scheme, host): the cookie attributes are the fixed ones
+		for _, h := range [][2]string{{"X-Forwarded-Prefix", "/internal/tools/grafana"}, {"X-Forwarded-Uri", "/internal/tools/grafana/d/1"}, {"X-Original-URI", "/internal/x"},
+			{"X-Forwarded-Host", "tools.example.org"}, {"X-Forwarded-Proto", []string{"http", "https"}[rng.Intn(2)]}, {"X-Forwarded-Port", "8443"}, {"X-Script-Name", "/app"}}[rng.Intn(3):][:3+rng.Intn(2)] {
+			r.Header.Set(h[0], h[1])
+		}
+		T.stat("session.requests-with-proxy-headers")
+	}
 	s.expireInBrowser()
 	if s.lastSaveAt != 0 && now-s.lastSaveAt > 86400 {
 		// no Save has succeeded for more than 24 hours: every cookie's Max-Age has run out in the browser, nothing is left to read
